@@ -6,6 +6,7 @@ import NurbsVerif.Driver.Parse
    mesh tri  su sv s            -> V=<n> uv=<u,v;…> src=<i,…> F=<a,b,c;…> E=<n>
    mesh pin  su sv s            -> ok | ERR       (guard of the pinned vertex-array size, defect F-15)
    mesh quad su sv              -> V=<n> F=<a,b,c,d;…>
+   mesh quaduv su sv            -> V=<n> uv=<u,v;…>     (vertex parameters of make_quad_mesh for su*sv points, repair F-15c)
    mesh exp  base s su,sv;su,sv;…   -> V=<total> F=<faces with running offsets>   (base 1 = OBJ, 0 = OFF / container ids)
    mesh nrm  p0 p1 p2           -> nx,ny,nz
    mesh pos  rat pu pv Uu Uv cu cv P su sv s  -> positions of the vertices (surface evaluated at the stored uv)
@@ -38,6 +39,11 @@ def handleMesh : List String → Option String
       let su ← su.toNat?; let sv ← sv.toNat?
       if su < 1 ∨ sv < 1 then return "ERR"
       return s!"V={su * sv} F={showMeshFaces (makeQuadFaces su sv)}"
+  | ["mesh", "quaduv", su, sv] => do
+      let su ← su.toNat?; let sv ← sv.toNat?
+      if su < 2 ∨ sv < 2 then return "ERR"
+      let uv : List (Rat × Rat) := quadVertexUV (su * sv) su sv
+      return s!"V={uv.length} uv={showMeshUV uv}"
   | ["mesh", "exp", base, s, sizes] => do
       let base ← base.toNat?; let s ← s.toNat?; let sz ← parseMeshSizes sizes
       if s < 1 ∨ sz.any (fun p => p.1 < 2 ∨ p.2 < 2) then return "ERR"
